@@ -98,7 +98,7 @@ Theorem C11_failed_for_good : forall e c t0 tr1 tr2 s1 s2,
 Proof. exact thm_failed_for_good. Qed.
 Print Assumptions C11_failed_for_good.
 
-(* with state resets (the timer): every state lifetime satisfies all of the above *)
+(* with state resets (the timer, after successes): every state lifetime satisfies all of the above *)
 Theorem C11_every_lifetime : forall e c t0 tr s, run e c (init t0) tr = Some s ->
   Forall (lifetime_ok e c) (d_log s :: d_past s).
 Proof. exact thm_every_lifetime. Qed.
@@ -120,31 +120,34 @@ Theorem C11_daemon_driver : forall fuel e c stop t0 sc,
 Proof. exact daemon_ok. Qed.
 Print Assumptions C11_daemon_driver.
 
-(* daemons._timer: the property over the timer's whole life is FALSE of the faithful model (finding F9):
-   after a PermanentError the handler is entered again ... *)
-Theorem C11_timer_failed_for_good_refuted :
-  exists fuel e c iv sc s a b rest,
-    run e c (init 0) (tmr_trace fuel e c (Some iv) false None 0 (from_scratch 0) sc) = Some s /\
-    whole s = a :: b :: rest /\
-    en_raised a = RPerm /\ is_none (o_exn (fst (exec e c (en_retry a) 0 0 (en_raised a)))) = false /\
-    en_end a < en_time b.
-Proof. exact timer_failed_for_good_refuted. Qed.
-Print Assumptions C11_timer_failed_for_good_refuted.
+(* once FAILED for good nothing is entered ever again, whatever follows — ticks and resets alike: a Reset is
+   not accepted after a failure (daemons._timer since fix e01f313: `if state.done and not ...failure`) *)
+Theorem C11_failed_forever : forall e c t0 tr1 tr2 s1 s2,
+  run e c (init t0) tr1 = Some s1 -> s_failure (d_hs s1) = true ->
+  run e c s1 tr2 = Some s2 ->
+  d_hs s2 = d_hs s1 /\ d_log s2 = d_log s1 /\ whole s2 = whole s1.
+Proof. exact thm_failed_forever. Qed.
+Print Assumptions C11_failed_forever.
 
-(* ... and with retries=N it is entered more than N times *)
-Theorem C11_timer_retries_bound_refuted :
-  exists fuel e c iv sc s N,
-    run e c (init 0) (tmr_trace fuel e c (Some iv) false None 0 (from_scratch 0) sc) = Some s /\
-    c_retries c = Some N /\ Z.max 0 N < Z.of_nat (List.length (whole s)).
-Proof. exact timer_retries_bound_refuted. Qed.
-Print Assumptions C11_timer_retries_bound_refuted.
+(* a state lifetime ends (Reset) only at a success *)
+Theorem C11_reset_only_after_success : forall e c t0 tr s t s',
+  run e c (init t0) tr = Some s -> step e c s (Reset t) = Some s' ->
+  s_success (d_hs s) = true /\ s_failure (d_hs s) = false /\ d_past s' = d_log s :: d_past s /\ d_log s' = [].
+Proof. exact reset_only_after_success. Qed.
+Print Assumptions C11_reset_only_after_success.
 
-(* the strongest true statement: every state lifetime of the timer (between two resets) obeys the policy *)
-Theorem C11_timer_lifetime_partial : forall fuel e c iv sharp stop t0 sc,
+(* daemons._timer over its WHOLE life, every script/interval/sharp/stop/fuel: an accepted run of the generic
+   driver; every lifetime (ended only by a success) obeys the policy, in particular has at most N entries — so
+   at most N entries since the last success —, and once failed for good the handler is never entered again *)
+Theorem C11_timer_whole_life : forall fuel e c iv sharp stop t0 sc,
   exists s, run e c (init t0) (tmr_trace fuel e c iv sharp stop t0 (from_scratch t0) sc) = Some s /\
-            Forall (lifetime_ok e c) (d_log s :: d_past s).
-Proof. exact timer_lifetimes_ok. Qed.
-Print Assumptions C11_timer_lifetime_partial.
+    Forall (lifetime_ok e c) (d_log s :: d_past s) /\
+    (forall N, c_retries c = Some N ->
+       Forall (fun log => Z.of_nat (List.length log) <= Z.max 0 N) (d_log s :: d_past s)) /\
+    (s_failure (d_hs s) = true -> forall tr2 s2, run e c s tr2 = Some s2 ->
+       d_hs s2 = d_hs s /\ whole s2 = whole s).
+Proof. exact timer_whole_life. Qed.
+Print Assumptions C11_timer_whole_life.
 
 (* the persisted driver (process_changing_cause): the state is re-read from the stored record on every cycle;
    for every sequence of cycles at any event times with operator restarts at any positions the entries obey
